@@ -13,7 +13,7 @@ META = {
                    'transformed-image constructors conjugate the matrix with the half-pixel translations and each shade_span fetches with '
                    'the function matching its type at consecutive x; R13.3 the integer fast paths clamp y on both sides / reduce both axes '
                    'with rem_euclid by their own dimension and index row*width + column; R13.4 draw_image helpers are axis-paired.',
-    'decides': ['R13.5 integer-translation test', 'R13.1 shader selection table', 'R13.2 half-pixel conjugation and fetch function agreement', 'R13.3 integer fast-path run structure', 'R13.4 draw_image helper geometry', 'R11.2 matrix = inverse CTM then source transform'],
+    'decides': ['R03.11 global alpha converted once per image shader', 'R13.5 integer-translation test', 'R13.1 shader selection table', 'R13.2 half-pixel conjugation and fetch function agreement', 'R13.3 integer fast-path run structure', 'R13.4 draw_image helper geometry', 'R11.2 matrix = inverse CTM then source transform'],
     'does_not_decide': ['sampling arithmetic (16.16 conversion, bilinear weights, fetch clamping/wrapping inside sw-composite)', 'equality of fast path and general sampler as values'],
     'assumptions': ['sw_composite fetch_bilinear/fetch_nearest[_alpha]::<PadFetch|RepeatFetch> sample as documented (external)', 'MatrixFixedPoint::transform applies the fixed matrix (external)'],
     'trusted_base': ['sw-composite 0.7.16', 'euclid 0.22.14'],
@@ -25,42 +25,48 @@ DT = dt.DT
 def r13_4(ctx):
     """draw_image helpers: axis-paired translation/scale, rectangle filled"""
     R = 'R13.4'
+
+    def check_body(b, key, W, H, X, Y, IMG, OPT):
+        """the body fills rect(X, Y, W, H) with Image(IMG, Pad, Bilinear, translation(-X,-Y).then_scale(IMG.width/W, IMG.height/H))
+        and forwards the options parameter; W..OPT are predicates on terms"""
+        an = ctx.an(b)
+        fr = [(bi, ct) for bi, d, ct in calls_in(ctx, b) if d == DT + 'fill_rect']
+        if not ctx.check(len(fr) == 1, R, key + '|fill_rect', b.loc(), 'one fill_rect call', 'expected one fill_rect call'):
+            return
+        bi, ct = fr[0]
+        a = ct[2]
+        ctx.check(X(a[1]) and Y(a[2]) and W(a[3]) and H(a[4]), R, key + '|rect', call_line(b, bi), 'fill_rect(x, y, width, height)', 'fill_rect is called with (%s), expected (x, y, width, height)' % ', '.join(fmt(b, v) for v in a[1:5]))
+        ctx.check(OPT(strip_all(a[6])), R, key + '|options', call_line(b, bi), 'options forwarded', 'options are not forwarded to fill_rect')
+        src = shared.resolve_mem(an, a[5])
+        ok = src[0] == 'agg' and src[3] == 'Image'
+        if ok:
+            f = dict(src[4])
+            img = strip_all(f['0'])
+            ctx.check(IMG(img), R, key + '|image', call_line(b, bi), 'source image = the image argument', 'the source is not the image argument')
+            ctx.check(f['1'][3] == 'Pad' and f['2'][3] == 'Bilinear', R, key + '|mode', call_line(b, bi), 'Pad / Bilinear', 'draw_image does not sample Pad/Bilinear')
+            tr = strip_all(f['3'])
+            okt = is_call(tr, 'then_scale') and is_call(strip_all(tr[2][0]), 'translation')
+            if okt:
+                t0 = strip_all(tr[2][0])
+                def neg(t, pred):
+                    return t[0] == 'un' and t[1] == 'Neg' and pred(t[2])
+                okt = neg(t0[2][0], X) and neg(t0[2][1], Y)
+                def ratio(t, fld, pred):
+                    if not (t[0] == 'bin' and t[1] == 'Div' and pred(t[3])):
+                        return False
+                    n = strip_casts(t[2], ('IntToFloat',))
+                    r, nm = field_path(n)
+                    return IMG(r) and nm == [fld]
+                okt = okt and ratio(tr[2][1], 'width', W) and ratio(tr[2][2], 'height', H)
+            ctx.check(okt, R, key + '|transform', call_line(b, bi), 'translation(-x,-y).then_scale(image.width/width, image.height/height)',
+                      'the source transform is %s, expected translation(-x, -y).then_scale(image.width/width, image.height/height) (each axis with its own quantities)' % fmt(b, tr))
+        else:
+            ctx.fail(R, key + '|source', call_line(b, bi), 'the source passed to fill_rect is not a Source::Image')
+
+    is_p = lambda k: (lambda t: strip_all(t) in (('param', k), ('deref', ('param', k))))
     b = ctx.body(DT + 'draw_image_with_size_at', R)
-    an = ctx.an(b)
-    key = 'draw_target::DrawTarget::draw_image_with_size_at'
     # params: self=1, width=2, height=3, x=4, y=5, image=6, options=7
-    fr = [(bi, ct) for bi, d, ct in calls_in(ctx, b) if d == DT + 'fill_rect']
-    if not ctx.check(len(fr) == 1, R, key + '|fill_rect', b.loc(), 'one fill_rect call', 'expected one fill_rect call'):
-        return
-    bi, ct = fr[0]
-    a = ct[2]
-    ctx.check(tuple(a[1:5]) == (('param', 4), ('param', 5), ('param', 2), ('param', 3)), R, key + '|rect', call_line(b, bi), 'fill_rect(x, y, width, height)', 'fill_rect is called with (%s), expected (x, y, width, height)' % ', '.join(fmt(b, v) for v in a[1:5]))
-    ctx.check(strip_all(a[6]) in (('param', 7), ('deref', ('param', 7))), R, key + '|options', call_line(b, bi), 'options forwarded', 'options are not forwarded to fill_rect')
-    src = shared.resolve_mem(an, a[5])
-    ok = src[0] == 'agg' and src[3] == 'Image'
-    if ok:
-        f = dict(src[4])
-        img = strip_all(f['0'])
-        ctx.check(img in (('deref', ('param', 6)), ('param', 6)), R, key + '|image', call_line(b, bi), 'source image = the image argument', 'the source is not the image argument')
-        ctx.check(f['1'][3] == 'Pad' and f['2'][3] == 'Bilinear', R, key + '|mode', call_line(b, bi), 'Pad / Bilinear', 'draw_image does not sample Pad/Bilinear')
-        tr = strip_all(f['3'])
-        okt = is_call(tr, 'then_scale') and is_call(strip_all(tr[2][0]), 'translation')
-        if okt:
-            t0 = strip_all(tr[2][0])
-            def neg(t, p):
-                return t[0] == 'un' and t[1] == 'Neg' and t[2] == ('param', p)
-            okt = neg(t0[2][0], 4) and neg(t0[2][1], 5)
-            def ratio(t, fld, p):
-                if not (t[0] == 'bin' and t[1] == 'Div' and t[3] == ('param', p)):
-                    return False
-                n = strip_casts(t[2], ('IntToFloat',))
-                r, nm = field_path(n)
-                return r == ('param', 6) and nm == [fld]
-            okt = okt and ratio(tr[2][1], 'width', 2) and ratio(tr[2][2], 'height', 3)
-        ctx.check(okt, R, key + '|transform', call_line(b, bi), 'translation(-x,-y).then_scale(image.width/width, image.height/height)',
-                  'the source transform is %s, expected translation(-x, -y).then_scale(image.width/width, image.height/height) (each axis with its own quantities)' % fmt(b, tr))
-    else:
-        ctx.fail(R, key + '|source', call_line(b, bi), 'the source passed to fill_rect is not a Source::Image')
+    check_body(b, 'draw_target::DrawTarget::draw_image_with_size_at', is_p(2), is_p(3), is_p(4), is_p(5), is_p(6), is_p(7))
     b2 = ctx.body(DT + 'draw_image_at', R)
     cs = [(bi2, ct2) for bi2, d, ct2 in calls_in(ctx, b2) if d == DT + 'draw_image_with_size_at']
     ok = len(cs) == 1
@@ -71,6 +77,17 @@ def r13_4(ctx):
             r, nm = field_path(t)
             return r == ('param', 4) and nm == [fld]
         ok = imgdim(a[1], 'width') and imgdim(a[2], 'height') and a[3] == ('param', 2) and a[4] == ('param', 3) and strip_all(a[5]) in (('param', 4), ('deref', ('param', 4))) and strip_all(a[6]) in (('param', 5), ('deref', ('param', 5)))
+    if not cs:
+        # the delegation written out: the same body with width/height = the image's own dimensions
+        # params of draw_image_at: self=1, x=2, y=3, image=4, options=5
+        def dim(fld):
+            def pred(t):
+                t = strip_casts(strip_all(t), ('IntToFloat',))
+                r, nm = field_path(t)
+                return strip_all(r) in (('param', 4), ('deref', ('param', 4))) and nm == [fld]
+            return pred
+        check_body(b2, 'draw_target::DrawTarget::draw_image_at', dim('width'), dim('height'), is_p(2), is_p(3), is_p(4), is_p(5))
+        return
     ctx.check(ok, R, 'draw_target::DrawTarget::draw_image_at|delegates', b2.loc(), 'draw_image_at = draw_image_with_size_at(image.width, image.height, x, y, ..)', 'draw_image_at does not delegate with the image\'s own size at (x, y)')
 
 
@@ -248,7 +265,7 @@ def r13_2(ctx):
                     # transform(x as u16, y as u16): x is the running column (phi of the x parameter and x+1), y the row parameter
                     xa = strip_casts(tr[2][1], ('IntToInt',))
                     ya = strip_casts(tr[2][2], ('IntToInt',))
-                    ok = ya == ('param', 3) and xa[0] == 'phi' and xa[1] == 2
+                    ok = ya == ('param', 3) and xa[0] == 'phi'
                     if ok:
                         incs = [san.def_term(san.defs[i]) for i in xa[2]]
                         ok = any(t == ('param', 2) for t in incs) and any(t[0] == 'bin' and t[1] == 'Add' and const_val(t[3]) == 1 for t in incs)
@@ -406,4 +423,4 @@ _r12_2.__name__ = 'r12_2'
 
 def run(ctx):
     import engine
-    engine.run_rules(ctx, [r13_1, r13_2, r13_3, r13_4, r13_5, dt.r02_6, _r18_2, _r12_2])
+    engine.run_rules(ctx, [r13_1, r13_2, r13_3, r13_4, r13_5, dt.r02_6, dt.r03_11, _r18_2, _r12_2])
